@@ -1,6 +1,7 @@
 //! C01 — issue -> present -> verify returns exactly the selected view of the claims.
 
 use crate::ctx::*;
+use crate::tok::{decode_disclosure, hash, split};
 use crate::flow::*;
 use crate::gen::*;
 use crate::imp::*;
@@ -291,6 +292,11 @@ pub fn run(ctx: &mut Ctx, replay: Option<&str>) {
             }
         }
     }
+    // digests that coincide in part: a credential with about 100 000 disclosures has, with good odds, two digests that agree in
+    // their first (or last) 32 bits; a presentation that carries both of them is as honest as any other
+    if replay.is_none() {
+        digest_coincidences(ctx);
+    }
     let mut runs = vec![];
     let mut reqs = vec![];
     let mut ids = vec![];
@@ -359,5 +365,107 @@ pub fn run(ctx: &mut Ctx, replay: Option<&str>) {
     }
     if flows.len() > 1 {
         ctx.sample(flows[flows.len() / 2].json());
+    }
+}
+
+fn digest_coincidences(ctx: &mut Ctx) {
+    use base64::Engine;
+    let (rows, cols) = (200usize, if ctx.tier == Tier::Quick { 500usize } else { 900 });
+    let claims = json!({"iss": "https://issuer.example", "exp": crate::imp::now() + 100000, "arr": (0..rows).map(|i| json!((0..cols).map(|j| json!(i * cols + j)).collect::<Vec<_>>())).collect::<Vec<_>>()});
+    let mut covered: Vec<&str> = vec![];
+    for attempt in 0..4 {
+        if covered.len() == 2 {
+            break;
+        }
+        let a = IssueArgs { claims: claims.clone(), strategy: Strategy::All, holder: None, decoy: false, fmt: if attempt % 2 == 0 { Fmt::Compact } else { Fmt::Json }, key: crate::keys::KeyId::Hmac1, alg: Some("HS256".into()), queue: None };
+        let issued = match issue(&a).out.ok() {
+            Some(s) => s.clone(),
+            None => return,
+        };
+        ctx.impl_calls += 1;
+        let parts = match split(a.fmt, &issued) {
+            Some(p) => p,
+            None => return,
+        };
+        // which row does each inner disclosure belong to: the row disclosures list the digests of their elements
+        // the list of row placeholders: in the payload, or (AllLevels hides "arr" itself) in the disclosure named arr
+        let outer: Vec<Value> = parts.payload().and_then(|p| p.get("arr").and_then(Value::as_array).cloned()).or_else(|| {
+            parts.disclosures.iter().filter_map(|d| decode_disclosure(d)).find_map(|x| match x.as_array() { Some(v) if v.len() == 3 && v[1] == json!("arr") => v[2].as_array().cloned(), _ => None })
+        }).unwrap_or_default();
+        let mut row_of: std::collections::HashMap<String, usize> = std::collections::HashMap::new();
+        let mut row_digest: Vec<Option<String>> = vec![None; rows];
+        for d in &parts.disclosures {
+            if let Some(Value::Array(x)) = decode_disclosure(d) {
+                if let Some(Value::Array(inner)) = x.last() {
+                    if let Some(Value::Object(first)) = inner.first() {
+                        let _ = first;
+                    }
+                    // a row: its elements are placeholders; find the row index through the payload's order below
+                    let digs: Vec<String> = inner.iter().filter_map(|e| e.get("...").and_then(Value::as_str).map(String::from)).collect();
+                    if digs.len() == cols {
+                        let rd = hash(d);
+                        let idx = outer.iter().position(|e| e.get("...").and_then(Value::as_str) == Some(rd.as_str()));
+                        if let Some(i) = idx {
+                            row_digest[i] = Some(rd);
+                            for g in digs {
+                                row_of.insert(g, i);
+                            }
+                        }
+                    }
+                }
+            }
+        }
+        let mut found: Vec<(&str, usize, usize)> = vec![];
+        for (kind, take) in [("first-32-bits", 0usize), ("last-32-bits", 1usize)] {
+            if covered.contains(&kind) {
+                continue;
+            }
+            let mut seen: std::collections::HashMap<[u8; 4], usize> = std::collections::HashMap::new();
+            for (g, row) in &row_of {
+                if let Ok(b) = base64::engine::general_purpose::URL_SAFE_NO_PAD.decode(g.as_bytes()) {
+                    if b.len() == 32 {
+                        let key: [u8; 4] = if take == 0 { [b[0], b[1], b[2], b[3]] } else { [b[28], b[29], b[30], b[31]] };
+                        if let Some(other) = seen.insert(key, *row) {
+                            if other != *row {
+                                found.push((kind, other, *row));
+                                break;
+                            }
+                        }
+                    }
+                }
+            }
+        }
+        if found.is_empty() {
+            ctx.count("digest_coincidence.none_in_this_issuance");
+            continue;
+        }
+        for (kind, r1, r2) in found {
+            covered.push(kind);
+            // select the two rows in full
+            let sel_rows: Vec<Value> = (0..rows).map(|i| if i == r1 || i == r2 { json!((0..cols).map(|_| json!(true)).collect::<Vec<_>>()) } else { json!(false) }).collect();
+            let sel = json!({"arr": sel_rows});
+            let h = holder_session(&issued, a.fmt, &[PresentArgs::plain(sel.as_object().cloned().unwrap())]);
+            let pres = h.calls.first().and_then(|c| c.out.ok().cloned());
+            ctx.impl_calls += 2;
+            ctx.evaluations += 1;
+            ctx.oracle_checks += 1;
+            ctx.count(&format!("digest_coincidence.{}", kind));
+            let case = json!({"digest_coincidence": {"kind": kind, "rows_selected": [r1, r2], "array": [rows, cols], "fmt": a.fmt.name()}});
+            let expect: Vec<Value> = {
+                let (lo, hi) = (r1.min(r2), r1.max(r2));
+                vec![json!((0..cols).map(|j| json!(lo * cols + j)).collect::<Vec<_>>()), json!((0..cols).map(|j| json!(hi * cols + j)).collect::<Vec<_>>())]
+            };
+            match pres {
+                Some(p) => {
+                    let v = verify(&VerifyArgs { input: p, fmt: a.fmt, resolver: Resolver::always(a.key), aud: None, nonce: None });
+                    ctx.impl_calls += 1;
+                    match &v.out {
+                        Outcome::Ok(c) if c.get("arr") == Some(&Value::Array(expect.clone())) => ctx.nontrivial(&case),
+                        other => ctx.violation("oracle", "verify", &format!("an honest presentation that carries two digests agreeing in their {} is not accepted with the selected claims", kind), case, json!({"outcome": other.class()}), json!({"arr": "the two selected rows"})),
+                    }
+                }
+                None => ctx.violation("oracle", "present", "the holder did not present two selected rows of a large array", case, h.calls.first().map(|c| c.out.describe()).unwrap_or(h.new.describe()), json!("Ok")),
+            }
+        }
     }
 }
